@@ -1,5 +1,6 @@
 import DryocVerif.Proofs.SecretBox
 import DryocVerif.Properties.C01
+import DryocVerif.Properties.C03
 /-
 C02 — the decision procedure of opening.
 
@@ -16,7 +17,8 @@ well-formedness assumption, no cryptographic assumption):
                    gives `Err`;
 * `short_rejected_*` : ciphertexts shorter than the overhead give `Err`;
 * `reject_of_mac_ne_*` : authenticator mismatch gives `Err` with the buffer unchanged;
-* `untampered_accepted_*` : re-export of the round trips of C01.
+* `untampered_accepted_*` : re-export of the round trips of C01;
+* `stream_*`       : the same four facts for the secretstream `pull` (re-export of C03).
 
 `expectedTag P key nonce c = P.mac ((P.stream key nonce (32 + c.length)).take 32) c` and
 `cryptXor P key nonce c = xorBytes c ((P.stream key nonce (32 + c.length)).drop 32)` are
@@ -619,6 +621,50 @@ theorem untampered_accepted_objUnseal (P : Prims) (wf : WF P) (m rpk rsk esk : B
     (hseal : objSeal P m rpk esk = .ok b) :
     objUnseal P b rpk rsk = .ok m :=
   C01.open_seal_objSeal P wf m rpk rsk esk b hdh hseal
+
+/-! ## crypto_secretstream_xchacha20poly1305_pull (re-exported from C03, statements written out)
+
+Every instantiation of the stream primitives, every state, ALL inputs, no hypothesis. -/
+
+section Stream
+open DryocVerif.Model.SecretStream (pull macInput)
+open DryocVerif.Proofs.SecretStream (pullBlock)
+
+/-- complete decision procedure of `pull`: `Ok n` iff the ciphertext has at least the 17 overhead bytes,
+`n` is the message length, the caller's buffer is large enough, and the last 16 bytes are the Poly1305
+authenticator (under the first 32 key-stream bytes of this position) of AD, tag block and ciphertext -/
+theorem stream_pull_ok_iff (P : Model.SecretStream.Prims) (s : Model.SecretStream.State) (buf : Bytes)
+    (tagv : UInt8) (ct ad : Bytes) (n : Nat) :
+    (pull P s buf tagv ct ad).res = .ok n ↔
+      17 ≤ ct.length ∧ n = ct.length - 17 ∧ n ≤ buf.length ∧
+      ct.drop (1 + n) =
+        P.mac (P.chacha s.k s.nonce 0 32) (macInput ad (pullBlock P s ct) ((ct.drop 1).take n)) :=
+  C03.pull_ok_iff P s buf tagv ct ad n
+
+/-- if a stream ciphertext is accepted, the same ciphertext with any other last 16 bytes is rejected -/
+theorem stream_tag_tamper_rejected (P : Model.SecretStream.Prims) (s : Model.SecretStream.State)
+    (buf : Bytes) (tagv : UInt8) (ct ad : Bytes) (n : Nat)
+    (hok : (pull P s buf tagv ct ad).res = .ok n)
+    (t : Bytes) (htl : t.length = 16) (hne : t ≠ ct.drop (ct.length - 16)) (buf' : Bytes) (tagv' : UInt8) :
+    (pull P s buf' tagv' (ct.take (ct.length - 16) ++ t) ad).res = .err :=
+  C03.tag_tamper_rejected P s buf tagv ct ad n hok t htl hne buf' tagv'
+
+/-- fewer than 17 bytes is always an error -/
+theorem stream_short_rejected (P : Model.SecretStream.Prims) (s : Model.SecretStream.State) (buf : Bytes)
+    (tagv : UInt8) (ct ad : Bytes) (h : ct.length < 17) : (pull P s buf tagv ct ad).res = .err :=
+  C03.short_rejected P s buf tagv ct ad h
+
+/-- nothing escapes the authenticator: the authenticated string is an injective encoding of
+(AD, tag block, ciphertext) -/
+theorem stream_macInput_injective (ad block c ad' block' c' : Bytes)
+    (hb : block.length = 64) (hb' : block'.length = 64)
+    (had : ad.length < 2 ^ 64) (had' : ad'.length < 2 ^ 64)
+    (hc : 64 + c.length < 2 ^ 64) (hc' : 64 + c'.length < 2 ^ 64)
+    (h : macInput ad block c = macInput ad' block' c') :
+    ad = ad' ∧ block = block' ∧ c = c' :=
+  C03.macInput_injective ad block c ad' block' c' hb hb' had had' hc hc' h
+
+end Stream
 
 /-! ## non-vacuity (toy instance): an accepted ciphertext exists, and tampering its tag is rejected -/
 
